@@ -2,6 +2,7 @@ package c11
 
 import (
 	"fmt"
+	"github.com/mikefarah/yq/v4/pkg/yqlib"
 	"os"
 	"path/filepath"
 	"strconv"
@@ -39,6 +40,93 @@ type Case struct {
 	NullIn  bool   `json:"null_in,omitempty"`
 	NulSep  bool   `json:"nul_sep,omitempty"`
 	Gen     string `json:"gen"`
+	// format and printer flags, each "name" or "name=value" as on the command line (see prefPool)
+	Prefs []string `json:"prefs,omitempty"`
+}
+
+// prefPool: the flags cmd/root.go binds to preferences; in-process they are set the way cobra sets them
+var prefPool = []string{"lua-globals", "lua-unquoted", "lua-prefix=x = ", "lua-suffix=", "lua-prefix=", "xml-strict-mode", "xml-keep-namespace=false", "xml-raw-token=false",
+	"xml-skip-proc-inst", "xml-skip-directives", "xml-attribute-prefix=", "xml-attribute-prefix=a", "xml-content-name=", "xml-content-name=a", "xml-proc-inst-prefix=", "xml-directive-name=",
+	"csv-auto-parse=false", "csv-separator=;", "csv-separator=\"", "tsv-auto-parse=false", "properties-separator=", "properties-separator=:", "properties-array-brackets",
+	"string-interpolation=false", "header-preprocess=false", "no-doc", "indent=0", "indent=1", "indent=9", "unwrapScalar=false", "unwrapScalar=true", "colors"}
+
+func genPrefs(t *rapid.T) []string {
+	if rapid.IntRange(0, 2).Draw(t, "hasprefs") != 0 {
+		return nil
+	}
+	return rapid.SliceOfNDistinct(rapid.SampledFrom(prefPool), 1, 3, func(s string) string { return strings.SplitN(s, "=", 2)[0] }).Draw(t, "prefs")
+}
+
+func (c Case) opts() hx.Opts {
+	o := hx.Opts{In: c.In, Out: c.Out, EvalAll: c.EvalAll, NullIn: c.NullIn, NulSep: c.NulSep}
+	var tweaks []func()
+	for _, p := range c.Prefs {
+		name, val, has := strings.Cut(p, "=")
+		on := !has || val == "true"
+		switch name {
+		case "no-doc":
+			o.NoDocSep = true
+		case "indent":
+			n, _ := strconv.Atoi(val)
+			o.Indent, o.IndentSet = n, true
+		case "unwrapScalar":
+			b := on
+			o.Unwrap = &b
+		case "colors":
+			tweaks = append(tweaks, func() {
+				yqlib.ConfiguredYamlPreferences.ColorsEnabled = true
+				yqlib.ConfiguredJSONPreferences.ColorsEnabled = true
+			})
+		case "lua-globals":
+			tweaks = append(tweaks, func() { yqlib.ConfiguredLuaPreferences.Globals = on })
+		case "lua-unquoted":
+			tweaks = append(tweaks, func() { yqlib.ConfiguredLuaPreferences.UnquotedKeys = on })
+		case "lua-prefix":
+			tweaks = append(tweaks, func() { yqlib.ConfiguredLuaPreferences.DocPrefix = val })
+		case "lua-suffix":
+			tweaks = append(tweaks, func() { yqlib.ConfiguredLuaPreferences.DocSuffix = val })
+		case "xml-strict-mode":
+			tweaks = append(tweaks, func() { yqlib.ConfiguredXMLPreferences.StrictMode = on })
+		case "xml-keep-namespace":
+			tweaks = append(tweaks, func() { yqlib.ConfiguredXMLPreferences.KeepNamespace = on })
+		case "xml-raw-token":
+			tweaks = append(tweaks, func() { yqlib.ConfiguredXMLPreferences.UseRawToken = on })
+		case "xml-skip-proc-inst":
+			tweaks = append(tweaks, func() { yqlib.ConfiguredXMLPreferences.SkipProcInst = on })
+		case "xml-skip-directives":
+			tweaks = append(tweaks, func() { yqlib.ConfiguredXMLPreferences.SkipDirectives = on })
+		case "xml-attribute-prefix":
+			tweaks = append(tweaks, func() { yqlib.ConfiguredXMLPreferences.AttributePrefix = val })
+		case "xml-content-name":
+			tweaks = append(tweaks, func() { yqlib.ConfiguredXMLPreferences.ContentName = val })
+		case "xml-proc-inst-prefix":
+			tweaks = append(tweaks, func() { yqlib.ConfiguredXMLPreferences.ProcInstPrefix = val })
+		case "xml-directive-name":
+			tweaks = append(tweaks, func() { yqlib.ConfiguredXMLPreferences.DirectiveName = val })
+		case "csv-auto-parse":
+			tweaks = append(tweaks, func() { yqlib.ConfiguredCsvPreferences.AutoParse = on })
+		case "csv-separator":
+			tweaks = append(tweaks, func() { yqlib.ConfiguredCsvPreferences.Separator = []rune(val)[0] })
+		case "tsv-auto-parse":
+			tweaks = append(tweaks, func() { yqlib.ConfiguredTsvPreferences.AutoParse = on })
+		case "properties-separator":
+			tweaks = append(tweaks, func() { yqlib.ConfiguredPropertiesPreferences.KeyValueSeparator = val })
+		case "properties-array-brackets":
+			tweaks = append(tweaks, func() { yqlib.ConfiguredPropertiesPreferences.UseArrayBrackets = on })
+		case "string-interpolation":
+			tweaks = append(tweaks, func() { yqlib.StringInterpolationEnabled = on })
+		case "header-preprocess":
+			tweaks = append(tweaks, func() { yqlib.ConfiguredYamlPreferences.LeadingContentPreProcessing = on })
+		}
+	}
+	if len(tweaks) > 0 {
+		o.Tweak = func() {
+			for _, f := range tweaks {
+				f()
+			}
+		}
+	}
+	return o
 }
 
 func check(c Case) hx.Verdict {
@@ -47,12 +135,12 @@ func check(c Case) hx.Verdict {
 		// can catch: judge it in a separate, memory-limited process
 		return checkBinLimited(c)
 	}
-	o := hx.Run(c.Expr, c.Input, hx.Opts{In: c.In, Out: c.Out, EvalAll: c.EvalAll, NullIn: c.NullIn, NulSep: c.NulSep})
+	o := hx.Run(c.Expr, c.Input, c.opts())
 	if o.Timeout {
 		// confirm with a much longer limit before calling it a hang
 		old := hx.DefaultLimit
 		hx.DefaultLimit = 120 * time.Second
-		o = hx.Run(c.Expr, c.Input, hx.Opts{In: c.In, Out: c.Out, EvalAll: c.EvalAll, NullIn: c.NullIn, NulSep: c.NulSep})
+		o = hx.Run(c.Expr, c.Input, c.opts())
 		hx.DefaultLimit = old
 		if o.Timeout {
 			v := hx.Bad("hang", "no result after 120 s: expr=%q in=%s out=%s input=%q", c.Expr, c.In, c.Out, c.Input)
@@ -79,7 +167,7 @@ func check(c Case) hx.Verdict {
 		labels = append(labels, "outcome:eval_or_encode_error")
 		nontrivial = true
 	}
-	return hx.OK(nontrivial, c.Expr+"\x00"+c.Input+"\x00"+c.In+c.Out, labels...)
+	return hx.OK(nontrivial, c.Expr+"\x00"+c.Input+"\x00"+c.In+c.Out+strings.Join(c.Prefs, " "), labels...)
 }
 
 func genExprCase(t *rapid.T) Case {
@@ -102,6 +190,7 @@ func genExprCase(t *rapid.T) Case {
 	}
 	c.EvalAll = rapid.IntRange(0, 4).Draw(t, "ea") == 0
 	c.NulSep = rapid.IntRange(0, 7).Draw(t, "nul") == 0
+	c.Prefs = genPrefs(t)
 	c.Expr, c.Input = gen.BoundCase(c.Expr, c.Input)
 	return c
 }
@@ -148,6 +237,7 @@ func genInputCase(t *rapid.T) Case {
 	}
 	c.EvalAll = rapid.IntRange(0, 4).Draw(t, "ea") == 0
 	c.NulSep = rapid.IntRange(0, 7).Draw(t, "nul") == 0
+	c.Prefs = genPrefs(t)
 	return c
 }
 
@@ -189,6 +279,9 @@ func checkBin(b BinCase) hx.Verdict {
 	args = append(args, "-p="+c.In, "-o="+c.Out)
 	if c.NulSep {
 		args = append(args, "-0")
+	}
+	for _, p := range c.Prefs {
+		args = append(args, "--"+p)
 	}
 	var stdin []byte
 	if c.NullIn {
